@@ -16,6 +16,11 @@ CHECKS = {
    technique="bounded-exhaustive enumeration of all boolean observation scripts x settings through the real watcher loop in a virtual-time bubble",
    text="Every boolean health-observation script up to length 10 (13 thorough) x 27 settings of (ConsecutiveN, MinStablePeriod, CooldownPeriod) is fed to the real StateChangeWatcher.run loop under testing/synctest virtual time; the recorded reactions are checked for strict alternation starting with 'unhealthy', >=N consecutive observations spanning the stable period before each, and silence during cool-down.",
    note="check interval fixed to 1s; predicate/callback durations zero; only-if reading (missing reactions are not violations); Go synctest virtual clock"),
+
+ "C10": dict(level="exploration", engine="schedx", design="§3 C10",
+   technique="stateless schedule exploration (preemption- and early-timer-bounded DFS over all interleavings) of the real queue + roll-over goroutine under a controlled scheduler, invariant oracle at every quiescent point",
+   text="All interleavings (<=2 preemptions, <=1 early time step; 3/2 thorough) of 2-3 enqueuing goroutines, the queue's real window roll-over goroutine and TTL timers, on 5 queue-level and 2 plugin-level scenarios, in virtual time. At every quiescent point of every schedule: a live waiter is in the heap or granted (never stranded), a roll-over pass never ends with free quota and a live waiter, releases respect (priority, arrival), waiters <= queue size; at the end grants per aligned window <= quota and rejections only for queue-full or elapsed TTL.",
+   note="scheduling granularity = sync operations (native channel ops are not split); scenarios listed in the harness; virtual time via testing/synctest; sync shim fidelity"),
 }
 NA_REASON = "check not built yet in this round (work in progress; planned per DESIGN.md §3)"
 def main():
